@@ -523,6 +523,8 @@ struct World {
     wmark: usize,
     ev: usize,
     out: Vec<String>,
+    tail: Vec<String>,
+    stalled: bool,
     arena: Arena,
 }
 
@@ -564,6 +566,8 @@ impl World {
             wmark: 0,
             ev: 0,
             out: Vec::new(),
+            tail: Vec::new(),
+            stalled: false,
             arena: Arena { strs: Vec::new(), bins: Vec::new() },
         }
     }
@@ -604,19 +608,17 @@ impl World {
             CtxFut::Conn(f) => match poll_fut(f, &flag) {
                 Polled::Pending => {}
                 Polled::Ready(r) => {
-                    self.flush_wire();
                     let line = match &r {
                         Ok(Either::Left(c)) => connect_rsp(c),
                         Ok(Either::Right(a)) => auth_rsp(a),
                         Err(e) => mqtt_err(e),
                     };
-                    self.emit(format!("C {}", line));
+                    self.tail.push(format!("{} C {}", self.ev, line));
                     fut = CtxFut::None;
                     progressed = true;
                 }
                 Polled::Panicked => {
-                    self.flush_wire();
-                    self.emit("X ctx".into());
+                    self.tail.push(format!("{} X ctx", self.ev));
                     fut = CtxFut::None;
                     progressed = true;
                 }
@@ -624,18 +626,16 @@ impl World {
             CtxFut::Run(f) => match poll_fut(f, &flag) {
                 Polled::Pending => {}
                 Polled::Ready(r) => {
-                    self.flush_wire();
                     let line = match &r {
                         Ok(()) => "ok".to_string(),
                         Err(e) => mqtt_err(e),
                     };
-                    self.emit(format!("R {}", line));
+                    self.tail.push(format!("{} R {}", self.ev, line));
                     fut = CtxFut::None;
                     progressed = true;
                 }
                 Polled::Panicked => {
-                    self.flush_wire();
-                    self.emit("X ctx".into());
+                    self.tail.push(format!("{} X ctx", self.ev));
                     fut = CtxFut::None;
                     progressed = true;
                 }
@@ -645,7 +645,6 @@ impl World {
         if self.wr.0.borrow().out.len() != before {
             progressed = true;
         }
-        self.flush_wire();
         progressed
     }
 
@@ -662,7 +661,7 @@ impl World {
             self.poll_ctx_once();
             n += 1;
             if n > 200_000 {
-                self.emit("S livelock".into());
+                self.stalled = true;
                 break;
             }
         }
@@ -671,7 +670,7 @@ impl World {
             let r = self.rd.0.borrow();
             if !r.segs.is_empty() || r.eof || r.err {
                 drop(r);
-                self.emit("S unread".into());
+                self.stalled = true;
             }
         }
     }
@@ -689,7 +688,7 @@ impl World {
             return;
         };
         if task.fut.is_none() {
-            self.emit(format!("? op {} done", i));
+            self.emit(format!("? op {}", i));
             return;
         }
         if !(force || !task.polled || is_set(&task.flag)) {
@@ -985,7 +984,16 @@ impl World {
             }
             _ => panic!("unknown event {}", cmd),
         }
+        self.end_event();
+    }
+
+    fn end_event(&mut self) {
         self.flush_wire();
+        let t = std::mem::take(&mut self.tail);
+        self.out.extend(t);
+        if std::mem::take(&mut self.stalled) {
+            self.emit("S".into());
+        }
     }
 
     // spin <n> <first-op-index> <kind pub1|pub2|sub|unsub> <ack 0|1>: n operations, each started, polled,
